@@ -32,6 +32,18 @@ REQUIRED = [
     "DaeVerif.C02.Props.lan_pname_hypothesis_needed",
     "DaeVerif.C02.Props.lpm_key_same_set",
     "DaeVerif.C02.Props.domain_bit_same",
+    # extension: the control plane's decoder, the domain-map key, every history of reloads with failed installs,
+    # the hot-reload window, what route() can observe of a map state
+    "DaeVerif.C02.Props.compile_decodes_what_was_encoded",
+    "DaeVerif.C02.Props.userspace_decodes_what_kernel_reads",
+    "DaeVerif.C02.Props.userspace_array_is_typed_program",
+    "DaeVerif.C02.Props.domain_key_is_address_bytes",
+    "DaeVerif.C02.Props.reload_histories_keep_generation_installed",
+    "DaeVerif.C02.Props.reload_histories_keep_kernel_and_userspace_equal",
+    "DaeVerif.C02.Props.rebuild_restores_from_any_maps",
+    "DaeVerif.C02.Props.hot_reload_lpm_phase_keeps_old_generation",
+    "DaeVerif.C02.Props.hot_reload_window_full_fails",
+    "DaeVerif.C02.Props.route_depends_only_on_observables",
     # composition C02 ∘ C10 ∘ C11 (Compose/KernelDomain.lean): H2 and DomOK discharged from the DNS-cache
     # table invariant and the domain matcher's bitmap theorem
     "DaeVerif.Compose.kernel_routes_by_dns_learnt_domains",
@@ -350,7 +362,7 @@ def run(ctx):
     fake = ctx.fake_bpf_overlay()
     binp = None
     if fake:
-        files = ["control/c02_test.go", "control/c01_test.go", "control/c12_test.go"]
+        files = ["control/c02_test.go", "control/c02x_test.go", "control/c01_test.go", "control/c12_test.go"]
         chain_ov, chain_mode = ctx.optchain_overlay()
         binp = ctx.go_test_build("control", files, "c02", tags="", extra_overlay={**fake, **chain_ov})
         if not binp and not chain_mode.startswith("FALLBACK"):
@@ -389,7 +401,8 @@ def run(ctx):
                                 os.path.join(ctx.out, name + ".model"), name,
                                 canon=canon_line)
         # const lines: three-way check below; the ring counter's exact policy is not part of the property
-        ring_invariants(ctx, ops, name)
+        if name != "c02roll":  # there the slots are compared with the model's transition system (syscmp)
+            ring_invariants(ctx, ops, name)
         ring_dis = [m for m in model if m.startswith("ok ring-model-predicted")]
         ctx.cov.setdefault("ring_model_disagreements", {})[name] = len(ring_dis)
         if ring_dis:
@@ -418,6 +431,14 @@ def run(ctx):
                         "do not satisfy `Installed` for the typed program: rule images = encodeGo(ring-rewritten entry), every trie at slot (start+i)%1024, active length")
             elif op.startswith("const "):
                 what = "constant differs between Go and the model"
+            elif op.startswith("decode "):
+                what = ("compileRoutingMatch (the control plane's own decoder) applied to a rule image read back from routing_map differs from "
+                        "the model's decodeGo: userspace would decode another typed entry than the kernel reads")
+            elif op.startswith("dkey "):
+                what = "Ipv6ByteSliceToUint32Array differs from the model's keyWords (key of domain_routing_map / LPM key data)"
+            elif op.startswith("syscmp"):
+                what = ("the kernel maps read back after a step of a reload history (staged install stopped by an injected fault / Close of the staged "
+                        "generation + RebuildReloadDatapath / cut-over) differ, in what route() can observe, from the state the model's transition system predicts")
             ctx.report(f"{what} at line {ln}: impl `{im[:200]}` model `{mo[:300]}`",
                        {"stream": name, "line": ln, "op": op[:4000], "impl": im[:4000], "model": mo[:4000],
                         "program": (ctx_of.get(ln, {}).get("prog") or "")[:4000], "tries": (ctx_of.get(ln, {}).get("tries") or "")[:4000],
@@ -469,6 +490,23 @@ def run(ctx):
                                 "entries_verified": cnt.get("dom.entries_verified", 0),
                                 "cached_name_missing_in_kernel_map": cnt.get("dom.cached_name_missing_in_kernel_map", 0)}
 
+    # ---- rollback histories: staged installs stopped by injected faults, Close of the staged generation, RebuildReloadDatapath
+    rops, rmerged, rmodel = three_way("c02roll")
+    rnote = read_lines(os.path.join(ctx.out, "c02roll.note")) if os.path.exists(os.path.join(ctx.out, "c02roll.note")) else []
+    sysc = [(o, m) for o, m in zip(rops, rmodel) if o.startswith("syscmp")]
+    ctx.cov["rollback_stream"] = {
+        "notes": rnote[:10], "packets": sum(1 for o in rops if o.startswith("pkt ")),
+        "stages": {k[len("roll.stage."):]: v for k, v in cnt.items() if k.startswith("roll.stage.")},
+        "rollbacks": cnt.get("roll.rollbacks", 0), "big_rollbacks": cnt.get("roll.big_rollbacks", 0),
+        "window_checked": cnt.get("roll.window_checked", 0),
+        "cutovers": {k[len("roll.cutover."):]: v for k, v in cnt.items() if k.startswith("roll.cutover.")},
+        "syscmp_total": len(sysc), "syscmp_compared_by_model": sum(1 for _, m in sysc if m == "ok" or m.startswith("differs")),
+        "syscmp_skipped_ring_policy": sum(1 for _, m in sysc if m.startswith("ok ring-model-predicted")),
+    }
+    ring_policy_changed = any(v for v in ctx.cov.get("ring_model_disagreements", {}).values())
+    if not ring_policy_changed and ctx.cov["rollback_stream"]["syscmp_compared_by_model"] < 20:
+        not_exercised.append("rollback stream: fewer than 20 map states were compared with the model's transition system: " + str(ctx.cov["rollback_stream"]))
+
     # ---- kernel error paths: native route() vs model on hand-written maps
     eops, emerged, emodel, _ = run_stream(ctx, "c02err", cdrv)
     if emerged:
@@ -512,7 +550,11 @@ def run(ctx):
               "pkt.dport53": 5000, "pkt.wan_pname_unknown": 2000, "pkt.domain_bitmap_nonzero": 2000, "pkt.zero_mac": 2000,
               "set.tail_must_rules": 50, "set.not": 300, "result.must": 1000, "result.marked": 1000,
               "dom.generations": 4, "dom.generation_with_high_index_domain_sets": 1, "dom.self_rebuild": 1, "dom.entries_verified": 15, "pkt.domain_table_written_by_control_plane": 30,
-              "max_matchsets_in_a_program": 300, "max_lpm_tries_in_a_program": 50}
+              "max_matchsets_in_a_program": 300, "max_lpm_tries_in_a_program": 50,
+              "roll.rollbacks": 10, "roll.big_rollbacks": 1, "roll.window_checked": 4, "roll.packets": 300,
+              "roll.stage.lpm:": 2, "roll.stage.rules:0": 2, "roll.stage.nolen": 3, "roll.stage.done": 3,
+              "decode.images": 1500, "dkey.addresses": 300, "dom.bulk_fills": 10,
+              "opt.simulated_batch_update": 30, "opt.simulated_batch_delete": 30, "opt.gomaxprocs1": 15}
     floors.update({f"set.type{t}": 150 for t in range(11)})
     low = {k: cnt.get(k, 0) for k, v in floors.items() if cnt.get(k, 0) < v}
     ctx.cov["floors"] = floors
